@@ -39,6 +39,30 @@ func (c *TermCtx) info(t *Term) *ainfo {
 	return a
 }
 
+// nonNegReal: structural proof that a Real term is >= 0.
+func (c *TermCtx) nonNegReal(t *Term) bool {
+	if c.rsign != nil && c.rsign[t.id] {
+		return true
+	}
+	switch t.op {
+	case OpRConst:
+		return t.rat.Sign() >= 0
+	case OpToReal:
+		in := c.info(t.args[0])
+		return in.lo != nil && in.lo.Sign() >= 0
+	case OpRMul, OpRDiv, OpRAdd:
+		return c.nonNegReal(t.args[0]) && c.nonNegReal(t.args[1])
+	}
+	return false
+}
+
+func (c *TermCtx) markNonNeg(t *Term) {
+	if c.rsign == nil {
+		c.rsign = map[int32]bool{}
+	}
+	c.rsign[t.id] = true
+}
+
 func (c *TermCtx) setInfo(t *Term, lo, hi *big.Int, tz uint) {
 	if c.ai == nil {
 		c.ai = map[int32]*ainfo{}
@@ -326,6 +350,44 @@ func (e *Exec) arithBinop(ins ssa.Instruction, op token.Token, x, y *Term, ta, t
 		return 0, false
 	}
 	nonneg := func(t *Term) bool { in := c.info(t); return in.lo != nil && in.lo.Sign() >= 0 }
+	// both operands concrete: compute with machine integers of the operand type
+	if x.op == OpRConst && y.op == OpRConst && x.rat.IsInt() && y.rat.IsInt() {
+		w := e.width(ta)
+		xv, yv := new(big.Int).And(x.rat.Num(), new(big.Int).SetUint64(mask(w))).Uint64(), new(big.Int).And(y.rat.Num(), new(big.Int).SetUint64(mask(e.width(tb)))).Uint64()
+		if x.rat.Sign() < 0 {
+			xv = uint64(x.rat.Num().Int64()) & mask(w)
+		}
+		if y.rat.Sign() < 0 {
+			yv = uint64(y.rat.Num().Int64()) & mask(e.width(tb))
+		}
+		var o Op = OpConst
+		signed := isSigned(ta)
+		switch op {
+		case token.AND:
+			o = OpAnd
+		case token.OR:
+			o = OpOr
+		case token.XOR:
+			o = OpXor
+		case token.AND_NOT:
+			o, yv = OpAnd, ^yv&mask(w)
+		case token.SHL:
+			o = OpShl
+		case token.SHR:
+			o = OpLShr
+			if signed {
+				o = OpAShr
+			}
+		}
+		if o != OpConst {
+			if r, ok := foldBV(o, w, xv, yv); ok {
+				if signed {
+					return c.IntConst(sext64(r, w)), nil
+				}
+				return c.IntConstU(r), nil
+			}
+		}
+	}
 	switch op {
 	case token.EQL, token.NEQ, token.LSS, token.LEQ, token.GTR, token.GEQ:
 		return e.cmpOp(op, true, x, y), nil
@@ -391,7 +453,8 @@ func (e *Exec) arithBinop(ins ssa.Instruction, op token.Token, x, y *Term, ta, t
 
 var two53 = new(big.Int).Lsh(big.NewInt(1), 53)
 
-// freshReal introduces r = exact*(1+eps), |eps| <= 2^-53.
+// rounded models one IEEE-754 rounding: result = exact + delta with |delta| <= 2^-53 * |exact|
+// (linear in exact, which keeps the solver's job to the genuinely non-linear parts).
 func (e *Exec) rounded(exact *Term, what string) *Term {
 	c := e.ctx
 	if exact.op == OpRConst {
@@ -399,13 +462,21 @@ func (e *Exec) rounded(exact *Term, what string) *Term {
 		return c.RealConstF(f)
 	}
 	e.realN++
-	eps := c.Var(fmt.Sprintf("eps!%d", e.realN), RealSort)
+	d := c.Var(fmt.Sprintf("delta!%d", e.realN), RealSort)
 	u := c.RealConstRat(new(big.Rat).SetFrac(big.NewInt(1), two53))
-	e.assumeQuiet(c.RCmp(OpRLe, c.RBin(OpRSub, c.RealConstInt(0), u), eps))
-	e.assumeQuiet(c.RCmp(OpRLe, eps, u))
+	ue := c.RBin(OpRMul, u, exact)
+	neg := c.RBin(OpRSub, c.RealConstInt(0), ue)
+	pos := c.BAnd(c.RCmp(OpRLe, neg, d), c.RCmp(OpRLe, d, ue))
 	e.floatOps++
-	e.floatRange = append(e.floatRange, exact)
-	return c.RBin(OpRAdd, exact, c.RBin(OpRMul, exact, eps))
+	if c.nonNegReal(exact) {
+		e.assumeQuiet(pos)
+		r := c.RBin(OpRAdd, exact, d)
+		c.markNonNeg(r)
+		return r
+	}
+	ngv := c.BAnd(c.RCmp(OpRLe, ue, d), c.RCmp(OpRLe, d, neg))
+	e.assumeQuiet(c.Ite(c.RCmp(OpRLe, c.RealConstInt(0), exact), pos, ngv))
+	return c.RBin(OpRAdd, exact, d)
 }
 
 func isPow2Rat(r *big.Rat) bool {
@@ -459,7 +530,21 @@ func (e *Exec) realBinop(op token.Token, x, y *Term) Value {
 		}
 		e.floatNonZero = append(e.floatNonZero, y)
 	}
-	exact := c.RBin(o, x, y)
+	var exact *Term
+	if o == OpRDiv && y.op != OpRConst {
+		// x / y as a fresh q with q*y = x (multiplicative form; y != 0 is a side obligation)
+		e.obligation(c.BNot(c.Eq(y, c.RealConstInt(0))), "float division by a non-zero value")
+		e.realN++
+		q := c.Var(fmt.Sprintf("quot!%d", e.realN), RealSort)
+		e.assumeQuiet(c.Eq(c.RBin(OpRMul, q, y), x))
+		if c.nonNegReal(x) && c.nonNegReal(y) {
+			c.markNonNeg(q)
+			e.assumeQuiet(c.RCmp(OpRLe, c.RealConstInt(0), q))
+		}
+		exact = q
+	} else {
+		exact = c.RBin(o, x, y)
+	}
 	// exact cases: multiplication / division by a power of two
 	if (o == OpRMul && ((x.op == OpRConst && isPow2Rat(x.rat)) || (y.op == OpRConst && isPow2Rat(y.rat)))) ||
 		(o == OpRDiv && y.op == OpRConst && isPow2Rat(y.rat)) {
@@ -485,6 +570,16 @@ func (e *Exec) realFromInt(t *Term) Value {
 // and is recorded as an obligation failure.
 func (e *Exec) realToInt(ins ssa.Instruction, rv RealV, to types.Type) Value {
 	c := e.ctx
+	if rv.t.op == OpToReal && rv.t.args[0].sort.K == KInt {
+		// an integer-valued float (e.g. the result of math.Round): the conversion is exact if it is in range
+		k := rv.t.args[0]
+		lo, hi := typeRange(e, to)
+		in := c.info(k)
+		if !(in.lo != nil && in.hi != nil && in.lo.Cmp(lo) >= 0 && in.hi.Cmp(hi) <= 0) {
+			e.obligation(c.BAnd(c.RCmp(OpRLe, c.IntConstBig(lo), k), c.RCmp(OpRLe, k, c.IntConstBig(hi))), "float-to-int conversion in range at "+e.posOf(ins))
+		}
+		return k
+	}
 	e.realN++
 	k := c.Var(fmt.Sprintf("trunc!%d", e.realN), IntSort)
 	lo, hi := typeRange(e, to)
@@ -508,6 +603,11 @@ func (e *Exec) realRound(x *Term, mode string) Value {
 	c := e.ctx
 	e.realN++
 	k := c.Var(fmt.Sprintf("%s!%d", mode, e.realN), IntSort)
+	if c.nonNegReal(x) {
+		// the rounded value of a non-negative float is a non-negative integer below 2^53 (obligation below)
+		c.setInfo(k, big.NewInt(0), new(big.Int).Set(two53), 0)
+		e.assumeQuiet(c.RCmp(OpRLe, c.IntConst(0), k))
+	}
 	kr := c.ToReal(k)
 	half := c.RealConstRat(big.NewRat(1, 2))
 	one := c.RealConstInt(1)
